@@ -10,12 +10,14 @@ corruption classes "garbage in the millisecond field" (`repair_ms_garbage`, for 
 half) and "garbage in the day-of-year and millisecond fields" (`repair_day_ms_garbage`, fewer than 40 %,
 under three stated side conditions) and "an implausible year on some line" (`repair_year_out_of_range`, any
 number of corrupt lines), and for ANY garbage (plausible years included) on fewer than ONE THIRD of the lines
-(`repair_any_garbage_third`).  What stays partial: the band between one third and 40 % when plausible-but-wrong
+(`repair_any_garbage_third`; for whole-millisecond periods EXACTLY: `repair_any_garbage_third_exact`, the property's
+"within 1 ms when the pass is exactly periodic" clause).  What stays partial: the band between one third and 40 % when plausible-but-wrong
 years (or ms values beyond 32 bits / passes longer than 6 h / recorded-day series with a half-integer median)
 are involved - correspondence check and the property's own oracle only.
 -/
 import PygacModel.Lemmas.TimesRepair
 import PygacModel.Lemmas.TimesDay
+import PygacModel.Lemmas.TimesExact
 import Mathlib.Tactic.IntervalCases
 import PygacModel.Generated.Misc
 namespace PygacModel.C08
@@ -260,6 +262,51 @@ example : GarbledAny 500 false 2026 truePass7 garbledAll [true, true, true, fals
 example : getTimes {} 500 2026 false (some 1025956800000) garbledAll =
     [1025956800000, 1025956800500, 1025956801000, 1025956801500, 1025956802000, 1025956802500, 1025956803000] := by
   decide +kernel
+
+/-- **The "within 1 ms when the pass is exactly periodic" clause** - in fact exact: with a whole-millisecond line
+period (GAC, 500 ms) and ANY garbage on fewer than one third of the lines (scenario `GarbledAny`), every returned time
+is within 10 s of the true time (no slack), every line whose sanitised time was further off than 10 s is returned at
+EXACTLY its true time, and so is every line whose sanitised time was exact (every intact line near the header time
+is: `Times.good_near_zero`).  The estimated pass offset is the exact one (`Times.finish_from_zero_majority`). -/
+theorem repair_any_garbage_third_exact (P : Rat) (sg : Bool) (nowYear : Int) (hd : Int) (r0 r : RawTimes) (good : List Bool)
+    (h : GarbledAny P sg nowYear r0 r good) (hP : ∃ p : Int, P = (p : Rat))
+    (hdec : (sg && decreasing r.nums) = false)
+    (hbad : 3 * good.count false < r0.nums.length)
+    (hhead : absR (passOffset P sg r0 - (hd : Rat)) ≤ 360000 - 2) :
+    (getTimes {} P nowYear sg (some hd) r).length = r0.nums.length ∧
+    ∀ i (hi : i < r0.nums.length) (h1 : i < (getTimes {} P nowYear sg (some hd) r).length),
+      absR ((((getTimes {} P nowYear sg (some hd) r)[i] : Int) : Rat)
+        - (((lineIdx sg r0.nums[i] : Int) : Rat) * P + passOffset P sg r0)) ≤ 10000 ∧
+      (absR (offErr P sg nowYear r0 r i) > 10000 →
+        (((getTimes {} P nowYear sg (some hd) r)[i] : Int) : Rat)
+          = ((lineIdx sg r0.nums[i] : Int) : Rat) * P + passOffset P sg r0) ∧
+      (offErr P sg nowYear r0 r i = 0 →
+        (((getTimes {} P nowYear sg (some hd) r)[i] : Int) : Rat)
+          = ((lineIdx sg r0.nums[i] : Int) : Rat) * P + passOffset P sg r0) :=
+  Times.repair_any_garbage_third_exact P sg nowYear hd r0 r good h hP hdec hbad hhead
+
+/-- ... and the 40 % guarantee (`repair_day_ms_garbage`, scenario `Garbled`) is exact in the same sense -/
+theorem repair_day_ms_garbage_exact (P : Rat) (sg : Bool) (nowYear : Int) (hd : Int) (r0 r : RawTimes) (good : List Bool)
+    (h : Garbled P sg nowYear r0 r good) (hP : ∃ p : Int, P = (p : Rat))
+    (hdec : (sg && decreasing r.nums) = false)
+    (hbad : 5 * good.count false < 2 * r0.nums.length)
+    (hhead : absR (passOffset P sg r0 - (hd : Rat)) ≤ 360000 - 2) :
+    (getTimes {} P nowYear sg (some hd) r).length = r0.nums.length ∧
+    ∀ i (hi : i < r0.nums.length) (h1 : i < (getTimes {} P nowYear sg (some hd) r).length),
+      absR ((((getTimes {} P nowYear sg (some hd) r)[i] : Int) : Rat)
+        - (((lineIdx sg r0.nums[i] : Int) : Rat) * P + passOffset P sg r0)) ≤ 10000 ∧
+      (absR (offErr P sg nowYear r0 r i) > 10000 →
+        (((getTimes {} P nowYear sg (some hd) r)[i] : Int) : Rat)
+          = ((lineIdx sg r0.nums[i] : Int) : Rat) * P + passOffset P sg r0) ∧
+      (offErr P sg nowYear r0 r i = 0 →
+        (((getTimes {} P nowYear sg (some hd) r)[i] : Int) : Rat)
+          = ((lineIdx sg r0.nums[i] : Int) : Rat) * P + passOffset P sg r0) :=
+  Times.repair_day_ms_garbage_exact P sg nowYear hd r0 r good h hP hdec hbad hhead
+
+/-- non-vacuity: the seven-line pass above meets the extra hypothesis (500 ms is a whole number), its corrupt line 4 is
+further than 10 s off after stage 1, and `get_times` returns exactly the true times (the `decide` example above) -/
+example : (∃ p : Int, (500 : Rat) = (p : Rat)) ∧ 3 * [true, true, true, false, true, true, true].count false < 7 :=
+  ⟨⟨500, by norm_num⟩, by decide⟩
 
 /-- **End-to-end repair, corruption class "an implausible year"**: if the year field of ANY line other than the
 first lies outside 1978 .. current year - and whatever ALL other time fields of ALL other lines contain - then
